@@ -175,9 +175,18 @@ def run_case(case):
         require(new == {expect_rel}, "file-name",
                 f"saving as {name!r} with {engine} created {sorted(new)}, "
                 f"expected [{expect_rel!r}]")
+        with under_test("load_ds(create_new=True) on a missing file"):
+            blank = x.load_ds(os.path.join(root, "nothing-here-" + name.
+                                           replace("/", "_")),
+                              engine=engine, create_new=True)
+        require(len(blank.data_vars) == 0 and len(blank.dims) == 0,
+                "create-new-not-blank", f"{blank}")
         with under_test("load_ds"):
             got = x.load_ds(path, engine=engine)
         compare(orig, got, netcdf, "load_ds")
+        with under_test("load_ds(create_new=True) on the existing file"):
+            got2 = x.load_ds(path, engine=engine, create_new=True)
+        compare(orig, got2, netcdf, "load_ds(create_new=True)")
         # lazily
         if netcdf and case.get("chunks") is not None:
             ch = case["chunks"]
